@@ -513,7 +513,7 @@ pub fn run(tier: &Tier, args: &[String]) -> i32 {
     ];
     let depth = crate::report::arg_value(args, "--depth")
         .and_then(|d| d.parse().ok())
-        .unwrap_or(if tier.thorough { 5 } else { 3 });
+        .unwrap_or(if tier.thorough { 6 } else { 3 });
     let cap = crate::report::arg_value(args, "--cap")
         .and_then(|d| d.parse().ok())
         .unwrap_or(if tier.thorough { 1500 } else { 50 });
